@@ -12,14 +12,16 @@ from .. import common as C
 
 MODULE = "Props.C05"
 THEOREMS = ["C05_pack_unpack", "C05_unpack_pack", "C05_destructurings_inverse", "C05_fn_pattern",
-            "C05_matcher_sees_declaration_order", "C05_forwarding", "C05_mut_writes_visible",
+            "C05_matcher_sees_declaration_order", "C05_forwarding", "C05_unmock_arm", "C05_unmock_slot", "C05_mut_writes_visible",
             "C05_sync_runs_at_call", "C05_async_deferred", "C05_once_per_await", "C05_known_is", "C05_known_refuted",
             "C05_nonvacuous"]
 
 RULE = ("traits generated from the grammar receiver{&self,&mut self,self,Rc,Arc,Box,Pin<&mut Self>} x arity 0..5 (thorough 0..7) x "
         "parameter classes{u32,Tok,String,&u32,&Tok,&str,&[u32],&mut u32,&mut Tok,&mut Lt<'_>(Impossible),T,G,impl Trait} x "
         "return{(),u32,Tok,String,T,Option} x flavour{sync,async fn,-> impl Future,#[async_trait]} x trait-level generic x "
-        "api{module,flattened} x responder{answers,answers_arc,returns} x opener{next,each,some}; 1-3 methods per trait; greedy pairwise "
+        "api{module,flattened} x responder{answers,answers_arc,returns,applies_unmocked} x unmock_with entry{absent, _, path, path(exprs) with `self` first/"
+        "last/absent and the parameters in a shuffled order} x receiver-less provided functions (skipped by the macro, each occupies an unmock_with slot) "
+        "at random positions x opener{next,each,some}; 1-3 methods per trait; greedy pairwise "
         "covering over these factors first, random afterwards; every argument id distinct; neighbouring parameters get the same class "
         "with probability 0.6 (a transposition type-checks and is seen).  All traits are compiled with the real macro into one crate; "
         "every method is called (async: awaited, dropped unpolled, awaited again).  distinct = canonical JSON of (trait-level options, "
@@ -80,11 +82,40 @@ def normalize(trait):
         if m["ret"] == "T" and not uses_t:
             m["ret"] = "tok"
         m["T"] = (m.get("T") or "u32") if uses_t else None
+        um = m.get("um")
+        if um is not None and (m["recv"] in ("mut", "pin") or m["ret"] == "T"):
+            # polonius receivers have no Unmock arm (finding F1, property C16); a generic result cannot be produced by the harness' real fn
+            um = m["um"] = None
+        if um is not None and um["form"] == "call":
+            n = len(m["params"])
+            vals = [x for x in um["exprs"] if x != "self"]
+            if sorted(vals) != sorted(set(vals)) or any(not (0 <= x < n) for x in vals) or um["exprs"].count("self") > 1:
+                um["exprs"] = ["self"] + list(range(n - 1, -1, -1))
+        if m["resp"] == "unmock" and um is None:
+            m["resp"] = "answers_arc"
         if m["resp"] == "returns" and m["ret"] != "u32":
             m["resp"] = "answers_arc"
         if m["flav"] != "sync":
             m["opener"] = "each"
+    lay = trait.get("layout")
+    if lay is None or lay.count("m") != len(trait["methods"]):
+        trait["layout"] = ["m"] * len(trait["methods"])
     return trait
+
+
+def gen_um(rng, n):
+    r = rng.random()
+    if r < 0.45:
+        return None
+    if r < 0.7:
+        return {"form": "path"}
+    idx = list(range(n))
+    rng.shuffle(idx)
+    if rng.random() < 0.3 and n:
+        idx = idx[:rng.randint(0, n)]                 # a subset: the function takes fewer values than the method has inputs
+    k = rng.random()
+    exprs = (["self"] + idx) if k < 0.5 else (idx + ["self"]) if k < 0.7 else idx
+    return {"form": "call", "exprs": exprs}
 
 
 def gen_method(rng, trait, max_arity):
@@ -92,12 +123,20 @@ def gen_method(rng, trait, max_arity):
          "ret": rng.choice(RETS), "flav": rng.choice(["sync", "async_trait"] if trait["async_trait"] else ["sync", "sync", "async", "rpit"]),
          "T": rng.choice(["u32", "Tok"]), "resp": rng.choice(["answers", "answers_arc", "answers_arc", "returns"]),
          "opener": rng.choice(["next", "each", "some"])}
+    m["um"] = gen_um(rng, len(m["params"]))
+    if m["um"] is not None and rng.random() < 0.7:
+        m["resp"] = "unmock"
     return m
 
 
 def gen_trait(rng, max_arity):
     t = {"async_trait": rng.random() < 0.25, "generic": rng.choice([None, None, "u32", "Tok"]), "api": rng.choice(["module", "flat"]), "methods": []}
     t["methods"] = [gen_method(rng, t, max_arity) for _ in range(rng.choice([1, 1, 2, 3]))]
+    lay = ["m"] * len(t["methods"])
+    if rng.random() < 0.35:
+        for _ in range(rng.randint(1, 2)):
+            lay.insert(rng.randint(0, len(lay)), "s")
+    t["layout"] = lay
     return normalize(t)
 
 
@@ -105,7 +144,8 @@ def factors(trait, m):
     cs = [p["c"] for p in m["params"]]
     f = {"recv": m["recv"], "arity": len(cs), "flav": m["flav"], "ret": m["ret"], "resp": m["resp"], "tg": bool(trait["generic"]),
          "api": trait["api"], "imp": "mutlt" in cs, "mut": any(c in MUT for c in cs), "first": cs[0] if cs else "-",
-         "last": cs[-1] if cs else "-", "nmeth": len(trait["methods"]), "gen": m["T"] is not None or "impl" in cs}
+         "last": cs[-1] if cs else "-", "nmeth": len(trait["methods"]), "gen": m["T"] is not None or "impl" in cs,
+         "um": (m.get("um") or {}).get("form", "-"), "skips": "s" in trait.get("layout", [])}
     return f
 
 
@@ -155,7 +195,68 @@ def coq_case(trait, mi):
              % (COQ_RECV[m["recv"]], "; ".join(COQ_CLASS[p["c"]] for p in m["params"]), COQ_RET[m["ret"]], COQ_FLAV[m["flav"]],
                 "true" if trait["generic"] else "false", "ApiModule" if trait["api"] == "module" else "ApiFlattened"))
     calls = "; ".join("(%s, [%s])" % (u, "; ".join(str(i) for i in ids_of(m, c))) for u, c in script_of(m))
-    return "{| k_shape := %s; k_resp := %s; k_calls := [%s] |}" % (shape, "UseReturn" if m["resp"] == "returns" else "UseAnswer", calls)
+    if m["resp"] == "unmock":
+        resp = "(UseUnmock [%s] [%s] %d)" % ("; ".join("true" if x == "m" else "false" for x in trait["layout"]),
+                                            "; ".join(coq_uentry(trait, i) for i in range(len(trait["layout"]))), mi)
+    else:
+        resp = "UseReturn" if m["resp"] == "returns" else "UseAnswer"
+    return "{| k_shape := %s; k_resp := %s; k_calls := [%s] |}" % (shape, resp, calls)
+
+
+def item_method(trait, i):
+    """the method index of fn item i (None for a skipped function)"""
+    lay = trait["layout"]
+    return None if lay[i] != "m" else lay[:i].count("m")
+
+
+def coq_uentry(trait, i):
+    j = item_method(trait, i)
+    um = None if j is None else trait["methods"][j].get("um")
+    if um is None:
+        return "UNone"
+    if um["form"] == "path":
+        return f"UPath {i}"
+    return "UCall %d [%s]" % (i, "; ".join("USelf" if x == "self" else f"UParam {x}" for x in um["exprs"]))
+
+
+def has_unmock_attr(trait):
+    return any(m.get("um") is not None for m in trait["methods"]) or trait.get("empty_unmock_attr", False)
+
+
+def rust_uentry(ti, trait, i):
+    j = item_method(trait, i)
+    um = None if j is None else trait["methods"][j].get("um")
+    if um is None:
+        return "_"
+    if um["form"] == "path":
+        return f"real_{ti}_{j}"
+    return f"real_{ti}_{j}(" + ", ".join("self" if x == "self" else f"p{x}" for x in um["exprs"]) + ")"
+
+
+def rust_real_fn(ti, j, trait):
+    """the function registered for method j: logs what it was called with, writes through its unique borrows, returns
+    20000 + 1000 * (its fn-item index) + the id of its first value argument"""
+    m = trait["methods"][j]
+    um = m["um"]
+    fid = [i for i in range(len(trait["layout"])) if item_method(trait, i) == j][0]
+    exprs = um["exprs"] if um["form"] == "call" else ["self"] + list(range(len(m["params"])))
+    selfty = {"ref": "&Unimock", "owned": "Unimock", "rc": "Rc<Unimock>", "arc": "Arc<Unimock>", "box": "Box<Unimock>"}[m["recv"]]
+    def pty(p):
+        return {"mutnamed": "&mut u32"}.get(p["c"], rust_param_ty(p))
+    args = ", ".join(f"u: {selfty}" if x == "self" else f"{'mut ' if m['params'][x]['c'] in MUT else ''}p{x}: {pty(m['params'][x])}" for x in exprs)
+    vals = [x for x in exprs if x != "self"]
+    gen = []
+    if any(m["params"][x]["c"] == "T" for x in vals): gen.append(f"T: {BOUND}")
+    if any(m["params"][x]["c"] == "G" for x in vals): gen.append(f"G: {BOUND}")
+    g = "<" + ", ".join(gen) + ">" if gen else ""
+    shows = ", ".join(f"p{x}.show()" for x in vals)
+    first = f"p{vals[0]}.id()" if vals else "0"
+    bumps = " ".join(f"p{x}.bump();" for x in vals if m["params"][x]["c"] in MUT)
+    addr = "Some(addr_of(&u))" if "self" in exprs else "None"
+    ret = rust_ret_ty(trait, m)
+    orig = " push(format!(\"O {}\", originality(u)));" if m["recv"] == "owned" and "self" in exprs else ""
+    return (f"{'async ' if m['flav'] != 'sync' else ''}fn real_{ti}_{j}{g}({args})" + ("" if m["ret"] == "unit" else f" -> {ret}") +
+            f" {{ unmocked({fid}, {addr}, vec![{shows}]); let r = 20000 + 1000 * {fid} + {first}; {bumps}{orig} {rust_ret_expr(m)} }}")
 
 
 # ---------------------------------------------------------------- rendering: Rust
@@ -208,12 +309,22 @@ def names(ti, trait):
 
 def rust_trait(ti, trait):
     tn, mod = names(ti, trait)
-    api = mod if mod else "[" + ", ".join(f"{tn}f{j}" for j in range(len(trait["methods"]))) + "]"
-    out = [f"#[unimock(api = {api})]"]
+    # the flattened name list is indexed like unmock_with: one name per fn item, skipped functions included
+    api = mod if mod else "[" + ", ".join(f"{tn}f{item_method(trait, i)}" if k == "m" else f"{tn}x{i}" for i, k in enumerate(trait["layout"])) + "]"
+    uw = ""
+    if has_unmock_attr(trait):
+        uw = ", unmock_with = [" + ", ".join(rust_uentry(ti, trait, i) for i in range(len(trait["layout"]))) + "]"
+    out = [f"#[unimock(api = {api}{uw})]"]
     if trait["async_trait"]:
         out.append("#[async_trait::async_trait]")
     out.append(f"trait {tn}{'<G: ' + BOUND + '>' if trait['generic'] else ''} {{")
-    for j, m in enumerate(trait["methods"]):
+    for i, kind in enumerate(trait["layout"]):
+        if kind != "m":
+            # receiver-less provided function: not mockable, skipped by the macro, but it is one of the trait's fn items
+            out.append(f"    fn t{ti}_s{i}() -> u32 where Self: Sized {{ {i} }}")
+            continue
+        j = item_method(trait, i)
+        m = trait["methods"][j]
         recv = {"ref": "&self", "mut": "&mut self", "owned": "self", "rc": "self: Rc<Self>", "arc": "self: Arc<Self>",
                 "box": "self: Box<Self>", "pin": "self: Pin<&mut Self>"}[m["recv"]]
         ps = "".join(f", p{k}: {rust_param_ty(p)}" for k, p in enumerate(m["params"]))
@@ -226,6 +337,9 @@ def rust_trait(ti, trait):
             sig = f"{'async ' if m['flav'] in ('async', 'async_trait') else ''}fn t{ti}_m{j}{gen}({recv}{ps})" + ("" if m["ret"] == "unit" else f" -> {ret}")
         out.append(f"    {sig};")
     out.append("}")
+    for j, m in enumerate(trait["methods"]):
+        if m.get("um") is not None:
+            out.append(rust_real_fn(ti, j, trait))
     return "\n".join(out)
 
 
@@ -245,7 +359,9 @@ def rust_driver(ti, mi, trait):
     first = "p0.id()" if n else "0"
     orig = " push(format!(\"O {}\", originality(u)));" if m["recv"] == "owned" else ""
     closure = (f"|u{cparams}| {{ answered(addr_of(&u), vec![{shows}]); let r = 5000 + {first}; {bumps}{orig} {rust_ret_expr(m)} }}")
-    if m["resp"] == "returns":
+    if m["resp"] == "unmock":
+        resp = ".applies_unmocked()"
+    elif m["resp"] == "returns":
         resp = ".returns(5000u32)"
     elif m["resp"] == "answers":
         resp = f".answers(&{closure})"
@@ -285,7 +401,8 @@ def rust_driver(ti, mi, trait):
             else:
                 L += ["        drop(f);", "        sample(\"dropped\");"]
         L.append("    }")
-    if recv == "owned" and m["flav"] == "sync" and m["resp"] != "returns" and m["opener"] != "next":
+    if recv == "owned" and m["flav"] == "sync" and m["resp"] != "returns" and m["opener"] != "next" and \
+            (m["resp"] != "unmock" or m["um"]["form"] == "path" or "self" in m["um"]["exprs"]):
         # finally the ORIGINAL itself is passed by value: the answer must receive that very instance (not a clone of it)
         ids = ids_of(m, 7)
         lets, args = [], []
